@@ -47,9 +47,15 @@ func (c *flagNameChecker) VisitExpr(expr ast.Expr) {
 	switch sym.Name {
 	case "Bool", "Duration", "Float64", "String",
 		"Int", "Int64", "Uint", "Uint64":
+		if len(call.Args) != 3 {
+			return // The arguments are the results of another call, like flag.Bool(f())
+		}
 		c.checkFlagName(call, call.Args[0])
 	case "BoolVar", "DurationVar", "Float64Var", "StringVar",
 		"IntVar", "Int64Var", "UintVar", "Uint64Var":
+		if len(call.Args) != 4 {
+			return // The arguments are the results of another call, like flag.BoolVar(f())
+		}
 		c.checkFlagName(call, call.Args[1])
 	}
 }
